@@ -26,8 +26,8 @@ def op_results(lines):
 def report(ctx, violations, kind, what, script_lines, impl_lines, model_lines, extra="", nofail=False, signature=None, maxn=4):
     if len(violations) >= maxn:
         return
-    body = "property %s — %s\n%s\n\n--- script (feed to the harness / driver) ---\n=== replay codec\n%s\n\n--- implementation ---\n%s\n\n--- model ---\n%s\n%s" % (
-        ctx.pid, kind, what, "\n".join(script_lines), "\n".join(impl_lines), "\n".join(model_lines), extra)
+    body = "property %s — %s\n%s\n\n--- script (feed to the harness / driver) ---\n=== replay %s\n%s\n\n--- implementation ---\n%s\n\n--- model ---\n%s\n%s" % (
+        ctx.pid, kind, what, "values" if ctx.pid == "C20" else "codec", "\n".join(script_lines), "\n".join(impl_lines), "\n".join(model_lines), extra)
     p = vlib.write_replay(ctx.pid, "%s_%d" % (kind, len(violations)), body)
     violations.append({"replay": p, "what": "%s: %s" % (kind, what), "nofail": nofail, "signature": signature or kind, "kind": kind})
 
